@@ -87,9 +87,11 @@ func buildFileLockedCompile(cfg *api.Config, filename, src string) (mainFunc str
 	} else {
 		mainFunc = prog.Manifest.MainPkg + "." + token.K_main
 	}
-	compileMu.Lock()
-	watOut, err := compiler_wat.New().Compile(prog)
-	compileMu.Unlock()
+	watOut, err := func() (string, error) {
+		compileMu.Lock()
+		defer compileMu.Unlock() // Compile panics on some legal programs; the experiment's own lock must not leak
+		return compiler_wat.New().Compile(prog)
+	}()
 	fset = prog.Fset.ToJson()
 	return mainFunc, []byte(watOut), fset, err
 }
